@@ -345,5 +345,154 @@ func c12Jobs(tier string) []*SeqJob {
 		}
 		return guard(func() (string, string) { c, d, _ := c12Run(ops[0], ncommon, ops[2], seq, reps); return c, d })
 	}
-	return []*SeqJob{j}
+	return []*SeqJob{j, c12LemmaJob(tier)}
+}
+
+// c12LemmaJob: per-metric accounting. For every shape of a larger alphabet, k copies of the
+// metric (k around the compact list-header threshold and large), sent as ONE batch with the
+// largest sequence id, must give a datagram no longer than what the reporter charges:
+// envelope allowance + k x charged size. This implies the packet bound for compositions of any length.
+func c12LemmaJob(tier string) *SeqJob {
+	nameLens := []int{1, 127, 128, 600}
+	tagCounts := []int{0, 1, 8, 13, 14, 15, 16}
+	tagLens := []int{1, 127, 128}
+	kinds := []string{"counter", "gauge", "timer", "vbucket-first", "vbucket-wide", "dbucket"}
+	ks := []int{1, 14, 15, 16, 130}
+	run := func(proto string, ncommon int, kind string, nameLen, nTags, tagLen int) (string, string, int) {
+		s := newFastSink()
+		defer s.close()
+		steps := 0
+		common := map[string]string{}
+		for i := 0; i < ncommon; i++ {
+			common[fmt.Sprintf("common%d", i)] = strings.Repeat("v", 20)
+		}
+		tags := map[string]string{}
+		for i := 0; i < nTags; i++ {
+			tags[fmt.Sprintf("%02d", i)+strings.Repeat("k", tagLen)] = strings.Repeat("v", tagLen)
+		}
+		if nTags == 0 {
+			tags = nil
+		}
+		name := strings.Repeat("n", nameLen)
+		for _, k := range ks {
+			var charged, overhead int32
+			var rcl, rdet string
+			k := k
+			cl, det := controlledCase(0, func() {
+				r, err := m3.NewReporter(m3.Options{HostPorts: []string{s.addr}, Service: "svc", Env: "test", CommonTags: common, Protocol: m3Proto(proto), MaxQueueSize: 4096, MaxPacketSizeBytes: 65000})
+				if err != nil {
+					rcl, rdet = "new-reporter", err.Error()
+					return
+				}
+				_, overhead = m3.VerifBudget(r)
+				m3.VerifSetSeqID(r, math.MaxInt32-1)
+				var report func()
+				switch kind {
+				case "counter":
+					h := r.AllocateCounter(name, tags)
+					charged = m3.VerifChargedSize(h)
+					report = func() { h.ReportCount(math.MinInt64) }
+				case "gauge":
+					h := r.AllocateGauge(name, tags)
+					charged = m3.VerifChargedSize(h)
+					report = func() { h.ReportGauge(math.NaN()) }
+				case "timer":
+					h := r.AllocateTimer(name, tags)
+					charged = m3.VerifChargedSize(h)
+					report = func() { h.ReportTimer(math.MinInt64) }
+				case "vbucket-first":
+					h := r.AllocateHistogram(name, tags, tally.ValueBuckets{1, 2})
+					charged = m3.VerifBucketChargedSizes(h)[0]
+					report = func() { h.ValueBucket(0, 1).ReportSamples(math.MinInt64) }
+				case "vbucket-wide":
+					h := r.AllocateHistogram(name, tags, tally.ValueBuckets{1, 1e15})
+					charged = m3.VerifBucketChargedSizes(h)[1]
+					report = func() { h.ValueBucket(0, 1e15).ReportSamples(math.MinInt64) }
+				case "dbucket":
+					h := r.AllocateHistogram(name, tags, tally.DurationBuckets{time.Millisecond, 1001*time.Hour + time.Millisecond})
+					charged = m3.VerifBucketChargedSizes(h)[1]
+					report = func() { h.DurationBucket(0, 1001*time.Hour+time.Millisecond).ReportSamples(math.MinInt64) }
+				}
+				free, _ := m3.VerifBudget(r)
+				if int64(k)*int64(charged) > int64(free) {
+					k = int(free / charged) // as many as the reporter itself puts into one batch
+				}
+				for i := 0; i < k; i++ {
+					report()
+					steps++
+				}
+				if err := r.Close(); err != nil {
+					rcl, rdet = "close-error", err.Error()
+				}
+			})
+			if cl != "" {
+				return cl, det, steps
+			}
+			if rcl != "" {
+				return rcl, rdet, steps
+			}
+			if k == 0 {
+				continue
+			}
+			dgs := s.drain(1)
+			if len(dgs) != 1 {
+				return "lemma-not-one-batch", fmt.Sprintf("%d datagrams for %d copies", len(dgs), k), steps
+			}
+			if allowed := int(overhead) + k*int(charged); len(dgs[0]) > allowed {
+				return "charged-size-below-actual-size", fmt.Sprintf("[%s, %d common tags] %s name %d bytes, %d tags of %d bytes: a batch of %d copies is a %d-byte datagram, the reporter charges %d (envelope allowance) + %d x %d = %d",
+					proto, ncommon+2, kind, nameLen, nTags, tagLen, k, len(dgs[0]), overhead, k, charged, allowed), steps
+			}
+		}
+		return "", "", steps
+	}
+	j := &SeqJob{Property: "C12", Name: "accounting-lemma", Shards: 8, Controlled: true}
+	j.Run = func(ctx *SeqCtx) {
+		n := 0
+		for _, proto := range []string{"compact", "binary"} {
+			for _, ncommon := range []int{0, 5} {
+				for _, kind := range kinds {
+					for _, nl := range nameLens {
+						for _, nt := range tagCounts {
+							for _, tl := range tagLens {
+								if tl > 1 && nt > 8 && tier != "thorough" {
+									continue
+								}
+								n++
+								if !ctx.Mine(n) {
+									continue
+								}
+								if ctx.Expired() {
+									return
+								}
+								proto, ncommon, kind, nl, nt, tl := proto, ncommon, kind, nl, nt, tl
+								steps := 0
+								cl, det := guard(func() (string, string) { c, d, s := run(proto, ncommon, kind, nl, nt, tl); steps = s; return c, d })
+								ops := []string{proto, fmt.Sprint(ncommon), kind, fmt.Sprint(nl), fmt.Sprint(nt), fmt.Sprint(tl)}
+								ctx.Case(steps, true, func() string { return fmt.Sprint(ops) })
+								ctx.State(fmt.Sprint(ops))
+								if cl != "" {
+									ctx.Fail(cl, det, ops)
+									if ctx.viol != nil {
+										return
+									}
+								}
+							}
+						}
+					}
+				}
+			}
+		}
+		ctx.Alphabet(fmt.Sprintf("kinds %v", kinds), fmt.Sprintf("name lengths %v", nameLens), fmt.Sprintf("tag counts %v", tagCounts), fmt.Sprintf("tag string lengths %v", tagLens),
+			fmt.Sprintf("copies per batch %v", ks), "compact, binary", "common tags 2 and 7", "values at the extremes of their encodings, sequence id MaxInt32")
+		ctx.DepthDone(1)
+	}
+	j.Replay = func(ops []string) (string, string) {
+		var nc, nl, nt, tl int
+		fmt.Sscan(ops[1], &nc)
+		fmt.Sscan(ops[3], &nl)
+		fmt.Sscan(ops[4], &nt)
+		fmt.Sscan(ops[5], &tl)
+		return guard(func() (string, string) { c, d, _ := run(ops[0], nc, ops[2], nl, nt, tl); return c, d })
+	}
+	return j
 }
